@@ -446,3 +446,104 @@ pub fn edit_program<R: Rng>(rng: &mut R, p: &mut Program) -> String {
     make_compilable(&mut p.defs[d], d);
     format!("{what} in {}", p.defs[d].name)
 }
+
+/// Hand-written "two versions of one crate" pairs on which a shape comparison that forgets the
+/// context of an earlier verdict goes wrong: the versions differ only *inside* a non-generic type
+/// that a generic one contains, or only in something a generic argument seems to explain.
+pub fn versions_gallery() -> Vec<(&'static str, Program, Program)> {
+    let nf = |n: &str, t: Ty| FieldDecl { name: Some(n.into()), ty: t, compact: false, skip: false, docs: vec![] };
+    let def = |name: &str, params: Vec<&str>, fields: Vec<FieldDecl>| Def {
+        module: vec!["m".into()],
+        name: name.into(),
+        params: params.into_iter().map(|p| ParamDecl { name: p.into(), skipped: false, cfg: false, uint: false }).collect(),
+        kind: DefKind::Struct(Style::Named, fields),
+        docs: vec![],
+    };
+    let prog = |defs: Vec<Def>, roots: Vec<Ty>| Program { krate: "krate".into(), defs, markers: vec![], roots, prefix: vec![] };
+    let u8_ = || Ty::Prim(Prim::U8);
+    let u32_ = || Ty::Prim(Prim::U32);
+    let mut out = Vec::new();
+    // W is not generic but names one instantiation of A; A<T> contains W. The versions use A<u8> /
+    // A<u32>: as roots the A's differ only in T, but their W's differ.
+    let v = |arg: Ty| {
+        prog(
+            vec![
+                def("W", vec![], vec![nf("inner", Ty::Box(Ty::Def(1, vec![arg.clone()]).b()))]),
+                def("A", vec!["T"], vec![nf("w", Ty::Option(Ty::Def(0, vec![]).b())), nf("t", Ty::Param(0))]),
+            ],
+            vec![Ty::Def(1, vec![arg])],
+        )
+    };
+    out.push(("non-generic member names one instantiation of its generic owner", v(u8_()), v(u32_())));
+    // Baz<T = Pair>: T explains Pair v1 / Pair v2 where T is written, not inside Qux, which names Pair itself
+    let w = |elem: Ty| {
+        prog(
+            vec![
+                def("Pair", vec![], vec![nf("x", Ty::Vec(elem.b()))]),
+                def("Qux", vec![], vec![nf("p", Ty::Cow(Ty::Def(0, vec![]).b())), nf("n", u8_())]),
+                def("Baz", vec!["T"], vec![nf("g", Ty::BTreeMap(Ty::Str.b(), Ty::Param(0).b())), nf("a", Ty::Def(1, vec![]))]),
+            ],
+            vec![Ty::Def(2, vec![Ty::Def(0, vec![])])],
+        )
+    };
+    out.push(("generic argument also named inside a non-generic member", w(Ty::Tuple(vec![Ty::Prim(Prim::U64), Ty::Prim(Prim::U64)])), w(Ty::Tuple(vec![Ty::Prim(Prim::U64)]))));
+    // the same unnamed type (String, T) under the generic parameter and, in a sibling, without one
+    let x = |second: Ty| {
+        prog(
+            vec![
+                def("Leaf", vec![], vec![nf("v", second)]),
+                def("Plain", vec![], vec![nf("q", Ty::Tuple(vec![Ty::Str, Ty::Def(0, vec![])]))]),
+                def("Gen", vec!["T"], vec![nf("a", Ty::Tuple(vec![Ty::Str, Ty::Param(0)])), nf("b", Ty::Vec(Ty::Def(1, vec![]).b()))]),
+            ],
+            vec![Ty::Def(2, vec![Ty::Def(0, vec![])])],
+        )
+    };
+    out.push(("one unnamed type under a parameter and beside it", x(u8_()), x(u32_())));
+    // P<T>{items: Vec<T>, other: B} at A  vs  P<T>{items: Vec<T>, other: A} at B: the pair (A, B) is
+    // explained by T under the Vec and then meets crosswise, unexplained
+    let y = |other: usize, arg: usize| {
+        prog(
+            vec![
+                def("A", vec![], vec![nf("a", u8_())]),
+                def("B", vec![], vec![nf("b", Ty::Prim(Prim::U64)), nf("c", Ty::Prim(Prim::Bool))]),
+                def("P", vec!["T"], vec![nf("items", Ty::Vec(Ty::Param(0).b())), nf("other", Ty::Def(other, vec![]))]),
+            ],
+            vec![Ty::Def(2, vec![Ty::Def(arg, vec![])])],
+        )
+    };
+    out.push(("argument pair meets again crosswise", y(1, 0), y(0, 1)));
+    out
+}
+
+/// Hand-written single-crate families (associated types whose implementors name each other).
+pub fn families_gallery() -> Vec<(&'static str, Program)> {
+    let nf = |n: &str, t: Ty| FieldDecl { name: Some(n.into()), ty: t, compact: false, skip: false, docs: vec![] };
+    let mut out = Vec::new();
+    for (what, fields) in [
+        ("config implementors name each other, wrapped parameter first", vec![nf("items", Ty::Vec(Ty::Param(0).b())), nf("other", Ty::Assoc(0, 0))]),
+        ("config implementors name each other, associated type first", vec![nf("other", Ty::Assoc(0, 0)), nf("items", Ty::Option(Ty::Param(0).b()))]),
+        ("config implementors name each other, under containers", vec![nf("items", Ty::Tuple(vec![Ty::Param(0), Ty::Prim(Prim::U8)])), nf("other", Ty::Vec(Ty::Assoc(0, 0).b())), nf("third", Ty::Assoc(0, 1))]),
+    ] {
+        let p = Def {
+            module: vec!["m".into()],
+            name: "P".into(),
+            params: vec![ParamDecl { name: "T".into(), skipped: false, cfg: true, uint: false }],
+            kind: DefKind::Struct(Style::Named, fields),
+            docs: vec![],
+        };
+        for flip in [false, true] {
+            let roots = if flip { vec![Ty::Def(0, vec![Ty::Marker(1)]), Ty::Def(0, vec![Ty::Marker(0)])] } else { vec![Ty::Def(0, vec![Ty::Marker(0)]), Ty::Def(0, vec![Ty::Marker(1)])] };
+            out.push((
+                what,
+                Program {
+                    krate: "krate".into(),
+                    defs: vec![p.clone()],
+                    markers: vec![Marker { assoc: vec![Ty::Marker(1), Ty::Prim(Prim::U8)] }, Marker { assoc: vec![Ty::Marker(0), Ty::Prim(Prim::U8)] }],
+                    roots,
+                    prefix: vec![],
+                },
+            ));
+        }
+    }
+    out
+}
